@@ -412,6 +412,9 @@ class Qube(object):
         self._truth_if_all_ = False
 
         # Fill in the default
+        if isinstance(default, Qube):       # np.shape() would see its leading
+            default = default._values_      # shape, not the shape of its array
+
         if default is not None and np.shape(default) == item:
             pass
 
